@@ -244,6 +244,10 @@ func flowSignErr(err error) string {
 		return "err:storage"
 	case strings.Contains(s, "name is too long"):
 		return "err:name-too-long"
+	case strings.Contains(s, "only by case"):
+		return "err:alias" // CheckMSISignatureNames
+	case strings.Contains(s, "cannot be represented in the tar form"):
+		return "err:tar-name" // checkMsiTarNames
 	}
 	return "err:other:" + strings.ReplaceAll(s, " ", "_")
 }
@@ -863,7 +867,7 @@ func FlowGen(w *bufio.Writer, seed uint64, tier string, prop string) {
 			c.root.kids = []*ent{newStream(r, msiName(r, 31), 10), newStream(r, msiName(r, 31), 5000), newStream(r, msiName(r, 30), 0)}
 			flowEmitHist(w, "long", "5xi,5nc", build(c, r))
 		}
-		// 3. outside the hypotheses of msi_sign_then_verify
+		// 3. inputs the signer must refuse (Relic.Props.C01.msi_sign_ok_iff)
 		special := func(tag, rs string, kids ...*ent) {
 			c := &cfg{shift: 9, root: newRoot(r)}
 			c.root.kids = kids
@@ -892,7 +896,17 @@ func FlowGen(w *bufio.Writer, seed uint64, tier string, prop string) {
 			st3 := newStorage(r, units("\x05digitalsignature"))
 			special("alias-storage", "5ni", st3, newStream(r, units("Beta"), 50))
 		}
-		// 3c. documents on which the tar form and the direct walk disagree (Relic.Props.C18.tar_differs_encoded_signature_name)
+		// 3c. reserved tar names in the root storage (MsiToTar refuses them since the repair of Fmsi-tar): a stream named
+		// __exmeta, a stream whose MSI-decoded name is a signature name
+		{
+			special("exmeta-name", "5xi", newStream(r, units("__exmeta"), 7), newStream(r, units("Plain"), 5))
+			special("exmeta-name", "5ni", newStream(r, units("__exmeta"), 7), newStream(r, units("Plain"), 5))
+			enc := []uint16{5, 0x430D, 0x432A, 0x4137, 0x3F2F, 0x42AC, 0x4131, 0x4637, 0x4235} // decodes to \x05DigitalSignature
+			special("encoded-sig", "5xi", newStream(r, enc, 10), newStream(r, units("Plain"), 5))
+			special("encoded-sig", "5ni", newStream(r, enc, 10), newStream(r, units("Plain"), 5), newStream(r, units(sigName), 300))
+		}
+		// 4. embedded signed packages: sub-storages holding streams named like the signature streams (content for both digest
+		// paths since the repair of Fmsi-tar; AddFile / DeleteFile must leave them alone)
 		{
 			st := newStorage(r, units("Sub"))
 			st.kids = []*ent{newStream(r, units(sigName), 9), newStream(r, units("x"), 3)}
@@ -901,8 +915,30 @@ func FlowGen(w *bufio.Writer, seed uint64, tier string, prop string) {
 			st2 := newStorage(r, units("Sub"))
 			st2.kids = []*ent{newStream(r, units(sigExName), 9)}
 			special("nested-ex", "5xi", st2, newStream(r, units("Plain"), 5))
-			special("exmeta-name", "5xi", newStream(r, units("__exmeta"), 7), newStream(r, units("Plain"), 5))
-			special("exmeta-name", "5ni", newStream(r, units("__exmeta"), 7), newStream(r, units("Plain"), 5))
+			for i := 0; i < 4; i++ {
+				inner := newStorage(r, units("Inner.msi"))
+				inner.kids = []*ent{newStream(r, units(sigName), []int{1, 700, 4096, 4500}[i]), newStream(r, units(sigExName), 32),
+					newStream(r, msiName(r, 4), 60), newStream(r, msiName(r, 3), 0)}
+				if i%2 == 1 {
+					deep := newStorage(r, units("Patch"))
+					deep.kids = []*ent{newStream(r, units([]string{"\x05digitalsignature", sigName}[i/2]), 20), newStream(r, units(sigExName), 0)}
+					inner.kids = append(inner.kids, deep)
+				}
+				kids := []*ent{inner, newStream(r, msiName(r, 5), 100), newStream(r, msiName(r, 2), 4200)}
+				tag := "embedded"
+				switch i {
+				case 1:
+					kids = append(kids, newStream(r, units(sigName), 800))
+					tag = "embedded+sig"
+				case 2:
+					kids = append(kids, newStream(r, units(sigName), 800), newStream(r, units(sigExName), 32))
+					tag = "embedded+sig+ex"
+				case 3:
+					kids = append(kids, newStream(r, units(sigExName), 20))
+					tag = "embedded+staleex"
+				}
+				special(tag, []string{"5xi,5ni,5xc", "5ni,5xi", "5xc,5xi,5ni", "5ni,5nc"}[i], kids...)
+			}
 		}
 	}
 	if prop == "C01" || prop == "C02" {
